@@ -93,7 +93,7 @@ static int ref_structure(const char *seq, int magic_variant, int trailing) {
 }
 
 static void part_structure(void) {
-	int maxlen = VF_THOROUGH ? 5 : 4, len;
+	int maxlen = VF_THOROUGH ? 6 : 5, len;
 	KSI_CTX *ctx = NULL;
 	for (len = 0; len <= maxlen; len++) {
 		long total = 1, idx;
@@ -188,6 +188,28 @@ static int verify_cross(KSI_CTX *vctx, const unsigned char *p, size_t n) {
 	return v;
 }
 
+/* constraints set on the file object itself take the place of the context's defaults: kind 0 an empty list (then none is
+ * configured: at least one is required), 1 the right e-mail address, 2 a wrong one */
+static int verify_file_constraints(KSI_CTX *ctx, const unsigned char *p, size_t n, int kind) {
+	KSI_PublicationsFile *pf = NULL;
+	KSI_CertConstraint c[2];
+	unsigned char *ex = ku_exact(p, n);
+	int v = -1, v2;
+	memset(c, 0, sizeof c);
+	if (kind == 1) { c[0].oid = KSI_CERT_EMAIL; c[0].val = EMAIL; }
+	if (kind == 2) { c[0].oid = KSI_CERT_EMAIL; c[0].val = "publications@verif.tesT"; }
+	if (KSI_PublicationsFile_parse(ctx, ex, n, &pf) == KSI_OK) {
+		if (KSI_PublicationsFile_setCertConstraints(pf, c) != KSI_OK) vf_harness_error("KSI_PublicationsFile_setCertConstraints");
+		v = KSI_PublicationsFile_verify(pf, ctx);
+		v2 = KSI_verifyPublicationsFile(ctx, pf);
+		vf_count("impl_calls", 4);
+		if ((v == KSI_OK) != (v2 == KSI_OK)) vf_fail("verify-disagree", "file-level constraints: KSI_PublicationsFile_verify=0x%x but KSI_verifyPublicationsFile=0x%x", v, v2);
+	}
+	KSI_PublicationsFile_free(pf);
+	free(ex);
+	return v;
+}
+
 static void part_trust(void) {
 	int anchor, cons, signer;
 	/* matrix: signer x anchor x constraint set */
@@ -217,6 +239,18 @@ static void part_trust(void) {
 			if (expect && vx != KSI_OK) vf_fail("trusted-file-refused", "signer %d anchor %d constraints %d, file parsed under another context: verification failed 0x%x", signer, anchor, cons, vx);
 			else if (!expect && vx == KSI_OK) vf_fail("untrusted-file-trusted", "signer %d anchor %d constraints %d: file parsed under another (trusting) context reported trusted by this one", signer, anchor, cons);
 			vf_obs("vx=%x", vx);
+		}
+		if (pres == KSI_OK) {
+			int kind;
+			for (kind = 0; kind < 3; kind++) {
+				int chain_ok = (anchor == 0 && signer != 1) || (anchor == 1 && signer == 1);
+				int expf = kind == 1 && chain_ok && signer != 2;
+				int vf_ = verify_file_constraints(ctx, b.p, b.n, kind);
+				vf_outcome("trust-file-constraints:%s:%s:%s", kind == 0 ? "empty" : kind == 1 ? "good" : "bad", expf ? "trusted-expected" : "untrusted-expected", vf_ == KSI_OK ? "trusted" : "refused");
+				if (expf && vf_ != KSI_OK) vf_fail("trusted-file-refused", "signer %d anchor %d, constraints on the file object (kind %d, context set %d): verification failed 0x%x", signer, anchor, kind, cons, vf_);
+				else if (!expf && vf_ == KSI_OK) vf_fail("untrusted-file-trusted", "signer %d anchor %d: file reported trusted with %s constraint list set on the file object (context set %d)", signer, anchor, kind == 0 ? "an EMPTY" : "a non-matching", cons);
+				vf_obs("vf%d=%x", kind, vf_);
+			}
 		}
 		vb_free(&b);
 		KSI_CTX_free(ctx);
